@@ -41,6 +41,12 @@ struct Ambient {
   ~Ambient();
 };
 
+// Call right after a blocking library call returned: everything that call kept on the stack of the calling process
+// (below `frame`) is dead now. An operation of ANOTHER process on such an address is recorded as the observation
+// {"k":"use_after_return","v":"<owner>"} ("no completion touches the waiter after the call returned").
+void MarkStackDead(const void* frame);
+#define VRT_STACK_RETURN() ::vrt::MarkStackDead(__builtin_frame_address(0))
+
 // Give a stable name to an atomic / lock / condvar object (exact address).
 void NameField(const void* addr, const std::string& name);
 // Give a stable name to a memory range; fields inside are reported as name+offset, pointers into it as @name.
